@@ -13,7 +13,7 @@ func TestVerifC04(t *testing.T) {
 	r := ev.Start(t, "C04")
 	defer r.Finish()
 	o := vwOpts{
-		prop: "C04", cmds: 2, maxInstalls: ev.Pick(r, 3, 4), maxCrashes: 1, maxOutages: ev.Pick(r, 0, 1), retained: 2,
+		prop: "C04", cmds: 2, maxInstalls: 3, maxCrashes: 1, maxOutages: ev.Pick(r, 0, 1), retained: 2,
 		evPrev: true, evSame: true, evOlder: true, evFence: true, evEpoch: true, epochAnyNode: r.Thorough(), evLocalLost: true, evTrailing: r.Thorough(),
 		oC04: true, reportKF: false,
 	}
